@@ -1,7 +1,7 @@
 (* C19 - TMCMC tempering progresses to the posterior; its MH kernel respects the target.
    ess, log_prior, log_lik are arbitrary (oracles for numpy / scipy / the user's model); xr = reals with -inf, +inf and nan. *)
 From Coq Require Import Reals Lra List ZArith Bool.
-From PUN Require Import Base.Num Model.TMCMC Proofs.Stacking Proofs.TMCMC.
+From PUN Require Import Base.Num Model.TMCMC Proofs.Stacking Proofs.TMCMC Gen.GenTMCMC Proofs.TMCMCTie.
 Import ListNotations.
 Open Scope R_scope.
 
@@ -28,6 +28,20 @@ Theorem C19_largest (ess : nat -> R -> Z) tol rN beta fuel s : 0 < tol -> tol < 
   b_max RN s - b_new RN s <= tol /\ (b_max RN s < 2 -> forall k y, b_max RN s <= y -> IZR (ess k y) < rN).
 Proof. exact (bisect_largest ess tol rN beta fuel s). Qed.
 Print Assumptions C19_largest.
+(* TIE: the bisection as calibration/tmcmc.py has it NOW (translated on every run, Gen/GenTMCMC.v: initial bracket, midpoint, three-way update,
+   `break`, tolerance literal, clamp) is the model's loop on any number structure ... *)
+Theorem C19_bisection_is_translated (N : Num) (ess : nat -> N -> Z) beta rN fuel :
+  gen_next_beta N ess beta rN fuel = next_beta N ess (gen_tol N) rN beta fuel.
+Proof. exact (gen_next_beta_is_model N ess beta rN fuel). Qed.
+(* ... and the two headline statements about the translated loop itself: it terminates within 29 passes with the tolerance written in the
+   source, and every stage strictly increases the exponent, never beyond 1 *)
+Theorem C19_translated_terminates (ess : nat -> R -> Z) rN beta : 0 <= beta -> beta < 2 -> gen_next_beta RN ess beta rN 29 <> None.
+Proof. exact (gen_terminates ess rN beta). Qed.
+Theorem C19_translated_increases (ess : nat -> R -> Z) rN beta fuel b e : beta < 1 ->
+  gen_next_beta RN ess beta rN fuel = Some (b, e) -> beta < b <= 1.
+Proof. exact (gen_next_beta_increases ess rN beta fuel b e). Qed.
+Print Assumptions C19_bisection_is_translated.
+Print Assumptions C19_translated_increases.
 (* importance weights: a probability vector proportional to likelihood^increment *)
 Theorem C19_weights inc ls M : ls <> [] ->
   let w := normalise (wts inc ls M) in
